@@ -59,6 +59,13 @@ class C14(LineCheck):
         "iv_main_posix.c:iv_init", "iv_main_posix.c:iv_deinit", "iv_main_posix.c:iv_main",
     ]
 
+    def sibling_stages(self):
+        # the "signal spinlock (+ blocked signals)" discipline and the lock protocols of iv_event / iv_wait are also decided
+        # deterministically by the acceptor models and monitors of C10 (mask and lock records of the virtual signal layer),
+        # C11 and C08 on baton-scheduled runs
+        import c10, c08
+        return [("C10", c10.C10), ("C11", c10.C11), ("C08", c08.C08)]
+
     def build(self, ctx):
         d = os.path.join(ctx.work, "b")
         ok, out = tsanrun.build(d)
